@@ -53,6 +53,22 @@ def valueEqFloat (v : Num) (c : F64) : Bool :=
   | Num.flt f => F64.feq f c
   | Num.int _ => false
 
+/-- `math.Floor(x)` of a finite double, as an exact integer -/
+def floorF (f : F64) : Int := floorInt f
+
+/-- exact value of `2·x` for a finite double, as `n / 2^k` -/
+def twiceNum (x : F64) : Int :=
+  let m : Int := if 1074 ≤ x.eff then (x.sig * 2 ^ (x.eff - 1074) : Nat) else (x.sig : Nat)
+  if x.neg then -m else m
+def twiceDenExp (x : F64) : Nat := if 1074 ≤ x.eff then 0 else 1074 - x.eff
+
+/-- `h + 0.5 < x` for an integer-valued `h` (e.g. `math.Floor(..)`): comparison of the exact values, `2h+1 < 2x` -/
+def halfLt (h : Int) (x : F64) : Bool :=
+  !x.isNaN && (if x.isInf then !x.neg else decide ((2 * h + 1) * 2 ^ twiceDenExp x < twiceNum x))
+/-- `h + 0.5 > x` -/
+def halfGt (h : Int) (x : F64) : Bool :=
+  !x.isNaN && (if x.isInf then x.neg else decide ((2 * h + 1) * 2 ^ twiceDenExp x > twiceNum x))
+
 def two63 : Int := 2 ^ 63
 def two64 : Int := 2 ^ 64
 def maxInt32 : Int := 2147483647
